@@ -8,14 +8,18 @@ use std::process::{Command, Stdio};
 use std::sync::atomic::{AtomicUsize, Ordering};
 use std::time::{Duration, Instant};
 
-const DIRECTIONS: &[&str] = &["car-nesting", "cdr-length", "vector-nesting", "quote-chain", "closure-chain", "continuation-chain", "non-tail-recursion", "nested-expression"];
+const DIRECTIONS: &[&str] = &[
+    "car-nesting", "cdr-length", "vector-nesting", "quote-chain", "closure-chain", "continuation-chain", "non-tail-recursion", "nested-expression",
+    // long in one direction with structured elements: whichever direction a traversal iterates along, the other one is shallow here
+    "list-of-pairs", "list-of-vectors", "vector-of-lists",
+];
 const OPERATIONS: &[&str] = &["read", "quote-evaluate", "build", "keep-live-across-collection", "equal", "write", "drop"];
 const DEPTHS: &[u64] = &[1_000, 10_000, 100_000];
 const THREADS: &[&str] = &["main", "2MiB"];
 
 /// Is the combination meaningful?
 fn applicable(dir: &str, op: &str) -> bool {
-    let data = matches!(dir, "car-nesting" | "cdr-length" | "vector-nesting" | "quote-chain");
+    let data = matches!(dir, "car-nesting" | "cdr-length" | "vector-nesting" | "quote-chain" | "list-of-pairs" | "list-of-vectors" | "vector-of-lists");
     match op {
         "read" | "quote-evaluate" | "drop" => data || (dir == "nested-expression" && op != "quote-evaluate"),
         "build" => true,
@@ -33,6 +37,9 @@ fn text(dir: &str, d: u64) -> String {
         "cdr-length" => format!("({})", "x ".repeat(d)),
         "vector-nesting" => format!("{}x{}", "#(".repeat(d), ")".repeat(d)),
         "quote-chain" => format!("{}x", "'".repeat(d)),
+        "list-of-pairs" => format!("({})", "(x . y) ".repeat(d)),
+        "list-of-vectors" => format!("({})", "#(x y) ".repeat(d)),
+        "vector-of-lists" => format!("#({})", "(x y) ".repeat(d)),
         "nested-expression" => format!("{}0{}", "(+ 1 ".repeat(d), ")".repeat(d)),
         _ => String::new(),
     }
@@ -45,6 +52,9 @@ fn builder(dir: &str, d: u64, var: &str) -> String {
         "cdr-length" => format!("(define (mk n acc) (if (= n 0) acc (mk (- n 1) (cons n acc)))) (define {} (mk {} '()))", var, d),
         "vector-nesting" => format!("(define (mk n acc) (if (= n 0) acc (mk (- n 1) (vector acc)))) (define {} (mk {} 'x))", var, d),
         "quote-chain" => format!("(define (mk n acc) (if (= n 0) acc (mk (- n 1) (list 'quote acc)))) (define {} (mk {} 'x))", var, d),
+        "list-of-pairs" => format!("(define (mk n acc) (if (= n 0) acc (mk (- n 1) (cons (cons n n) acc)))) (define {} (mk {} '()))", var, d),
+        "list-of-vectors" => format!("(define (mk n acc) (if (= n 0) acc (mk (- n 1) (cons (vector n n) acc)))) (define {} (mk {} '()))", var, d),
+        "vector-of-lists" => format!("(define (mk n acc) (if (= n 0) acc (mk (- n 1) (cons (list n n) acc)))) (define {} (list->vector (mk {} '())))", var, d),
         "closure-chain" => format!("(define (mk n f) (if (= n 0) f (mk (- n 1) (lambda () f)))) (define {} (mk {} (lambda () 0)))", var, d),
         "continuation-chain" => format!("(define (step prev) (call/cc (lambda (k) k))) (define (mk n prev) (if (= n 0) prev (mk (- n 1) (step prev)))) (define {} (mk {} #f))", var, d),
         "non-tail-recursion" => format!("(define (deep n) (if (= n 0) 0 (+ 1 (deep (- n 1))))) (define {} (deep {}))", var, d),
